@@ -24,6 +24,9 @@ func (SimpleHashScheme) Block(h tmconsensus.Header) ([]byte, error) {
 	// Serialize the previous commit proof.
 	// First iterate over the voted blocks in order.
 	prevCommitBlocks := make([]string, 0, len(h.PrevCommitProof.Proofs))
+	// The proofs map is keyed by the raw block hash,
+	// so remember which raw key each formatted key came from.
+	rawBlockHashes := make(map[string]string, len(h.PrevCommitProof.Proofs))
 	for bh := range h.PrevCommitProof.Proofs {
 		var blockKey string
 		if bh == "" {
@@ -32,6 +35,7 @@ func (SimpleHashScheme) Block(h tmconsensus.Header) ([]byte, error) {
 			blockKey = fmt.Sprintf("%x", bh)
 		}
 		prevCommitBlocks = append(prevCommitBlocks, blockKey)
+		rawBlockHashes[blockKey] = bh
 	}
 	sort.Strings(prevCommitBlocks)
 
@@ -41,7 +45,7 @@ func (SimpleHashScheme) Block(h tmconsensus.Header) ([]byte, error) {
 		}
 		buf.WriteString(blockHash)
 		buf.WriteString(" => (")
-		sigs := h.PrevCommitProof.Proofs[blockHash]
+		sigs := h.PrevCommitProof.Proofs[rawBlockHashes[blockHash]]
 
 		sigStrings := make([]string, len(sigs))
 		for j, sig := range sigs {
